@@ -511,3 +511,27 @@ def coverage_audit(run, module, cfgs, expected_actions, timeout=1800):
     if missing:
         raise InfraError("vacuity: actions never taken in %s: %s" % (module, missing))
     run.extra.setdefault("action_coverage", {})[module] = {a: total.get(a, 0) for a in expected_actions}
+
+
+def apalache_inductive(run, module, cinit, init="Init", indinit="IndInit", indinv="IndInv", safety=(), timeout=1800):
+    """Unbounded-depth safety for fixed constants with Apalache: Init => IndInv (length 0), IndInv /\\ Next => IndInv'
+    (length 1 from IndInit), IndInv => each safety property (length 0 from IndInit). A failed or timed-out obligation is
+    an infrastructure error of the model (exit 2), never a verdict about the code."""
+    d = prepare_spec_dir()
+    obligations = [("%s => %s" % (init, indinv), ["--init=" + init, "--inv=" + indinv, "--length=0"]),
+                   ("%s /\\ Next => %s'" % (indinv, indinv), ["--init=" + indinit, "--inv=" + indinv, "--length=1"])]
+    for sname in safety:
+        obligations.append(("%s => %s" % (indinv, sname), ["--init=" + indinit, "--inv=" + sname, "--length=0"]))
+    done = []
+    for name, args in obligations:
+        t0 = time.time()
+        try:
+            p = subprocess.run(["apalache-mc", "check", "--cinit=" + cinit, "--out-dir=" + os.path.join(d, "_apalache-out")] + args + [module + ".tla"],
+                               cwd=d, capture_output=True, text=True, timeout=timeout)
+        except subprocess.TimeoutExpired:
+            raise InfraError("apalache timeout on obligation %s" % name)
+        if "EXITCODE: OK" not in p.stdout:
+            raise InfraError("apalache obligation failed: %s\n%s" % (name, "\n".join(p.stdout.splitlines()[-12:])))
+        done.append({"obligation": name, "wall_s": round(time.time() - t0, 1)})
+    run.extra.setdefault("apalache_inductive", []).append({"module": module, "constants": cinit, "obligations": done})
+    shutil.rmtree(d, ignore_errors=True)
